@@ -56,7 +56,8 @@ pub fn impl_parse_expr(text: &str) -> ImplParse<RE> {
         Ok(Ok(e)) => ImplParse::Ok(RE::from_expr(&e)),
         Ok(Err(reval::parse::Error::ExprParseError(m))) => match classify(&m) {
             Some(k) => ImplParse::Err(k, m),
-            None => ImplParse::Unknown(m),
+            // a message shape this harness does not know: still a rejection (position unknown)
+            None => ImplParse::Err(ErrKind::User(format!("unrecognised message: {}", m.lines().next().unwrap_or(""))), m),
         },
         Ok(Err(other)) => ImplParse::Unknown(format!("{other:?}")),
     }
@@ -82,7 +83,7 @@ pub fn impl_parse_rule(text: &str) -> ImplParse<RuleObs> {
         Ok(Err(reval::parse::Error::MissingRuleName)) => ImplParse::Err(ErrKind::MissingName, "MissingRuleName".into()),
         Ok(Err(reval::parse::Error::RuleParseError(m))) => match classify(&m) {
             Some(k) => ImplParse::Err(k, m),
-            None => ImplParse::Unknown(m),
+            None => ImplParse::Err(ErrKind::User(format!("unrecognised message: {}", m.lines().next().unwrap_or(""))), m),
         },
         Ok(Err(other)) => ImplParse::Unknown(format!("{other:?}")),
     }
